@@ -22,7 +22,19 @@ for d in sorted(glob.glob(os.path.join(V, "seeded", "*"))):
         own = "(not swept)"
     others = ", ".join(c for c in m.get("caught_by", []) if c != tag[:3]) or "-"
     rows.append("| %s | %s | %s | %s | %s |" % (tag, cl(m.get("summary"), 230), cl(m.get("needs"), 170), own, others))
+import sys
+out = []
+def print(*a):
+    out.append(" ".join(str(x) for x in a))
 print("| change | what it does | needs, to manifest | check of its own property, final sweep (quick tier) | other checks that caught it in the round it was made |")
 print("|---|---|---|---|---|")
 print("\n".join(rows))
 print("\n%d seeded changes kept; %d caught by the check of their own property in the final sweep." % (len(rows), sum(1 for r in rows if "| caught" in r)))
+text = "\n".join(out) + "\n"
+if "--design" in sys.argv:
+    dp = os.path.join(V, "DESIGN.md")
+    d = open(dp).read()
+    a, b = d.index("<!-- seedtable:begin -->") + len("<!-- seedtable:begin -->"), d.index("<!-- seedtable:end -->")
+    open(dp, "w").write(d[:a] + "\n" + text + d[b:])
+else:
+    sys.stdout.write(text)
